@@ -219,4 +219,70 @@ example :
     let s := (createTenant (initState 1000000 true) "a1" "uusdc".toList 3 none).st
     isOk (setPeriod s "a1" 1 5).out = true ∧ isOk (setPeriod s "A1" 1 5).out = true ∧ isOk (setPeriod s "a2" 1 5).out = false := by decide
 
+/-! ### transactions of several messages (baseapp: one branch, written only when every message succeeded) -/
+
+/-- a transaction all of whose messages succeed has exactly the effect of its messages one after the other -/
+theorem batch_success_is_sequential (H : Str → Str) : ∀ (ops : List Op) (s s' : State), runBatch H s ops = some s' → s' = run H s ops := by
+  intro ops
+  induction ops with
+  | nil => intro s s' h; simp [runBatch] at h; simp [run, h]
+  | cons op r ih =>
+    intro s s' h
+    unfold runBatch at h
+    split at h
+    · simp only [run]; exact ih _ _ h
+    · cases h
+
+/-- **a transaction in which some message is rejected changes nothing at all** - not the tenants, records, indexes, counters, ballots,
+balances or the event log: the state afterwards is the state before -/
+theorem rejected_transaction_changes_nothing (H : Str → Str) (s : State) (ops : List Op) (h : runBatch H s ops = none) :
+    atomicStep H s ops = s := by
+  simp [atomicStep, h]
+
+/-- a transaction is all or nothing -/
+theorem transaction_all_or_nothing (H : Str → Str) (s : State) (ops : List Op) :
+    atomicStep H s ops = run H s ops ∨ atomicStep H s ops = s := by
+  unfold atomicStep
+  cases h : runBatch H s ops with
+  | none => right; rfl
+  | some s' => left; simp only [Option.getD_some]; exact batch_success_is_sequential H ops s s' h
+
+theorem run_append (H : Str → Str) : ∀ (a b : List Op) (s : State), run H s (a ++ b) = run H (run H s a) b := by
+  intro a
+  induction a with
+  | nil => intro b s; rfl
+  | cons op r ih => intro b s; simp only [List.cons_append, run]; exact ih b _
+
+/-- **every state reached by a history of transactions (single messages, harness actions, blocks, and multi-message transactions
+with their all-or-nothing rule) is reached by a plain history of operations** - so every theorem of this development about
+"all states reachable by operation lists" is a theorem about transaction histories -/
+theorem transaction_histories_add_no_states (H : Str → Str) : ∀ (items : List HistItem) (s : State), ∃ ops, runEntries H s items = run H s ops := by
+  intro items
+  induction items with
+  | nil => intro s; exact ⟨[], rfl⟩
+  | cons it r ih =>
+    intro s
+    cases it with
+    | single op =>
+      obtain ⟨ops, h⟩ := ih (step H s op).st
+      exact ⟨op :: ops, by simp only [runEntries, stepEntry, run]; exact h⟩
+    | atomic b =>
+      rcases transaction_all_or_nothing H s b with e | e
+      · obtain ⟨ops, h⟩ := ih (atomicStep H s b)
+        refine ⟨b ++ ops, ?_⟩
+        simp only [runEntries, stepEntry]
+        rw [h, run_append, e]
+      · obtain ⟨ops, h⟩ := ih (atomicStep H s b)
+        refine ⟨ops, ?_⟩
+        simp only [runEntries, stepEntry]
+        rw [h, e]
+
+/-- non-vacuity: an admin's transaction [set the period to 9, cancel a request id that does not exist] is rejected as a whole and
+the period stays 3; the same first message alone takes effect -/
+example :
+    let s := (createTenant (initState 1000000 true) "a1" "uusdc".toList 3 none).st
+    (findTenant (atomicStep (fun x => x) s [.setPeriod "a1" 1 9, .cancel "a1" 1 "nosuch".toList]).st.tenants 1).map (·.period) = some 3 ∧
+    (findTenant (atomicStep (fun x => x) s [.setPeriod "a1" 1 9]).st.tenants 1).map (·.period) = some 9 := by decide
+
+
 end Settlus.C09
